@@ -247,9 +247,21 @@ class SchedCondition:
         self.release()
         return False
 
+    def _require_owner(self, what):
+        """Same contract as the real primitives: threading.Condition raises RuntimeError and
+        multiprocessing.Condition raises AssertionError when wait/notify is called by a caller that does not
+        hold the condition's own lock."""
+        s = self._sched()
+        me = s._me().idx if (s is not None and s._me() is not None) else "harness"
+        if self.mutex.owner != me:
+            if self.name.endswith("_mp"):
+                raise AssertionError(f"must acquire() condition before using {what}")
+            raise RuntimeError(f"cannot {what} on un-acquired lock")
+
     def wait(self, timeout=None):
         s = self._sched()
         self.stats["wait"] += 1
+        self._require_owner("wait")
         if s is None or s._me() is None:
             raise Deadlock(f"wait() on {self.name} outside a controlled run would block forever")
         me = s._me().idx
@@ -263,6 +275,7 @@ class SchedCondition:
 
     def notify(self, n=1):
         self.stats["notify"] += 1
+        self._require_owner("notify")
         woke = 0
         for entry in self.waiters:
             if woke >= n:
